@@ -71,6 +71,10 @@ def run(f_on, f_off, nonce, f_allfeat=None, positive=None):
             src_rules.scan_nondeterminism(c2, pc)
             hits = {f.key.split('|')[-2] + ':' + f.key.split('|')[-1] for f in c2.findings}
             need = [('HashMap iteration', any('hash' in h.lower() for h in hits)), ('env read', any('std::env::var' in h for h in hits))]
+            kinds = {f.key.split('|')[1] if f.key.count('|') >= 1 else '' for f in c2.findings}
+            need.append(('raw pointer comparison', 'ptrcmp' in kinds))
+            need.append(('interior-mutable field', 'state-field' in kinds))
+            need.append(('static with shared state', 'static-state' in kinds))
             hq = [1 for b in pc.bodies for bb, t in b.calls() if mirlib.callee_path(t) in src_rules.HOST_QUERIES]
             need.append(('host layout query', bool(hq)))
             for what, ok in need:
